@@ -204,9 +204,13 @@ def defaultPort (scheme : Bytes) : Nat := defaultPortIn defaultPorts scheme
 
 /-! ### port: nni_get_port_by_name (numeric branch; the service database is empty) -/
 
+/-- `c - '0'`.  Irreducible only so that the elaborator does not try to evaluate the
+    subtraction symbolically (the kernel and the compiled driver are not affected). -/
+@[irreducible] def digitOf (c : UInt8) : Nat := c.toNat - 0x30
+
 def digitsVal : Nat → Bytes → Nat
   | acc, [] => acc
-  | acc, c :: r => digitsVal (acc * 10 + (c.toNat - 0x30)) r
+  | acc, c :: r => digitsVal (acc * 10 + digitOf c) r
 
 /-- strtol(name, &end, 10) with `*end == '\0'`: white space, optional sign, digits, nothing else.
     Result: (negative, magnitude).  `none`: not wholly a number. -/
